@@ -802,3 +802,147 @@ package apd
 //@ lemma {C15} total_zero_iff_same(a: *Decimal, b: *Decimal): inv(a) && inv(b) && a.Form == Finite && b.Form == Finite && val(a.Coeff) > 0 && val(b.Coeff) > 0 && cmptotal(a, b) == 0 ==> a.Negative == b.Negative && a.Exponent == b.Exponent && val(a.Coeff) == val(b.Coeff)
 //@ lemma {C15} cmp_zeros_equal(a: *Decimal, b: *Decimal): inv(a) && inv(b) && iszero(a) && iszero(b) ==> cmpsigned(a, b) == 0
 //@ lemma {C15} cmp_inf_bounds(a: *Decimal, b: *Decimal): inv(a) && inv(b) && a.Form == Infinite && !a.Negative && b.Form == Finite ==> cmpsigned(a, b) == 1 && cmpsigned(b, a) == -1
+
+// ---------------------------------------------------------------- error.go (C03)
+
+//@ func (*Context).WithPrecision
+//@   props C06 C18 C09
+//@   fresh
+//@   assigns nothing
+//@   ensures ret != nil && writable(ret) && ret.Precision == p && ret.MaxExponent == c.MaxExponent && ret.MinExponent == c.MinExponent && ret.Traps == c.Traps && ret.Rounding == c.Rounding
+
+//@ func (*ErrDecimal).Err
+//@   props C03
+//@   requires writable(e) && closed(e.Flags)
+//@   assigns e.err
+//@   ensures old(e.err) != nil ==> (ret == old(e.err) && e.err == old(e.err))
+//@   ensures old(e.err) == nil && e.Ctx == nil ==> (ret == nil && e.err == nil)
+//@   ensures old(e.err) == nil && e.Ctx != nil ==> (e.err == ret && (ret != nil <==> trapped(e.Ctx, e.Flags)))
+
+//@ func (*ErrDecimal).update
+//@   props C03
+//@   requires writable(e)
+//@   assigns e.Flags, e.err
+//@   ensures e.Flags == (old(e.Flags) | res) && e.err == err
+
+// ErrDecimal wrappers: each must delegate to the Context operation of the same name (class T, C03)
+//@ func (*ErrDecimal).Add
+//@   props C03
+//@   requires writable(e) && writable(d) && e.Ctx != nil && closed(e.Flags) && inv(x) && inv(y)
+//@   assigns e.Flags, e.err, d
+//@   delegates (*Context).Add(e.Ctx, d, x, y)
+//@   ensures ret == d
+//@ func (*ErrDecimal).Mul
+//@   props C03
+//@   requires writable(e) && writable(d) && e.Ctx != nil && closed(e.Flags) && inv(x) && inv(y)
+//@   assigns e.Flags, e.err, d
+//@   delegates (*Context).Mul(e.Ctx, d, x, y)
+//@   ensures ret == d
+//@ func (*ErrDecimal).Quo
+//@   props C03
+//@   requires writable(e) && writable(d) && e.Ctx != nil && closed(e.Flags) && inv(x) && inv(y)
+//@   assigns e.Flags, e.err, d
+//@   delegates (*Context).Quo(e.Ctx, d, x, y)
+//@   ensures ret == d
+//@ func (*ErrDecimal).QuoInteger
+//@   props C03
+//@   requires writable(e) && writable(d) && e.Ctx != nil && closed(e.Flags) && inv(x) && inv(y)
+//@   assigns e.Flags, e.err, d
+//@   delegates (*Context).QuoInteger(e.Ctx, d, x, y)
+//@   ensures ret == d
+//@ func (*ErrDecimal).Rem
+//@   props C03
+//@   requires writable(e) && writable(d) && e.Ctx != nil && closed(e.Flags) && inv(x) && inv(y)
+//@   assigns e.Flags, e.err, d
+//@   delegates (*Context).Rem(e.Ctx, d, x, y)
+//@   ensures ret == d
+//@ func (*ErrDecimal).Sub
+//@   props C03
+//@   requires writable(e) && writable(d) && e.Ctx != nil && closed(e.Flags) && inv(x) && inv(y)
+//@   assigns e.Flags, e.err, d
+//@   delegates (*Context).Sub(e.Ctx, d, x, y)
+//@   ensures ret == d
+//@ func (*ErrDecimal).Pow
+//@   props C03
+//@   requires writable(e) && writable(d) && e.Ctx != nil && closed(e.Flags) && inv(x) && inv(y)
+//@   assigns e.Flags, e.err, d
+//@   delegates (*Context).Pow(e.Ctx, d, x, y)
+//@   ensures ret == d
+//@ func (*ErrDecimal).Abs
+//@   props C03
+//@   requires writable(e) && writable(d) && e.Ctx != nil && closed(e.Flags) && inv(x)
+//@   assigns e.Flags, e.err, d
+//@   delegates (*Context).Abs(e.Ctx, d, x)
+//@   ensures ret == d
+//@ func (*ErrDecimal).Ceil
+//@   props C03
+//@   requires writable(e) && writable(d) && e.Ctx != nil && closed(e.Flags) && inv(x)
+//@   assigns e.Flags, e.err, d
+//@   delegates (*Context).Ceil(e.Ctx, d, x)
+//@   ensures ret == d
+//@ func (*ErrDecimal).Exp
+//@   props C03
+//@   requires writable(e) && writable(d) && e.Ctx != nil && closed(e.Flags) && inv(x)
+//@   assigns e.Flags, e.err, d
+//@   delegates (*Context).Exp(e.Ctx, d, x)
+//@   ensures ret == d
+//@ func (*ErrDecimal).Floor
+//@   props C03
+//@   requires writable(e) && writable(d) && e.Ctx != nil && closed(e.Flags) && inv(x)
+//@   assigns e.Flags, e.err, d
+//@   delegates (*Context).Floor(e.Ctx, d, x)
+//@   ensures ret == d
+//@ func (*ErrDecimal).Ln
+//@   props C03
+//@   requires writable(e) && writable(d) && e.Ctx != nil && closed(e.Flags) && inv(x)
+//@   assigns e.Flags, e.err, d
+//@   delegates (*Context).Ln(e.Ctx, d, x)
+//@   ensures ret == d
+//@ func (*ErrDecimal).Log10
+//@   props C03
+//@   requires writable(e) && writable(d) && e.Ctx != nil && closed(e.Flags) && inv(x)
+//@   assigns e.Flags, e.err, d
+//@   delegates (*Context).Log10(e.Ctx, d, x)
+//@   ensures ret == d
+//@ func (*ErrDecimal).Neg
+//@   props C03
+//@   requires writable(e) && writable(d) && e.Ctx != nil && closed(e.Flags) && inv(x)
+//@   assigns e.Flags, e.err, d
+//@   delegates (*Context).Neg(e.Ctx, d, x)
+//@   ensures ret == d
+//@ func (*ErrDecimal).Round
+//@   props C03
+//@   requires writable(e) && writable(d) && e.Ctx != nil && closed(e.Flags) && inv(x)
+//@   assigns e.Flags, e.err, d
+//@   delegates (*Context).Round(e.Ctx, d, x)
+//@   ensures ret == d
+//@ func (*ErrDecimal).Sqrt
+//@   props C03
+//@   requires writable(e) && writable(d) && e.Ctx != nil && closed(e.Flags) && inv(x)
+//@   assigns e.Flags, e.err, d
+//@   delegates (*Context).Sqrt(e.Ctx, d, x)
+//@   ensures ret == d
+//@ func (*ErrDecimal).RoundToIntegralValue
+//@   props C03
+//@   requires writable(e) && writable(d) && e.Ctx != nil && closed(e.Flags) && inv(x)
+//@   assigns e.Flags, e.err, d
+//@   delegates (*Context).RoundToIntegralValue(e.Ctx, d, x)
+//@   ensures ret == d
+//@ func (*ErrDecimal).RoundToIntegralExact
+//@   props C03
+//@   requires writable(e) && writable(d) && e.Ctx != nil && closed(e.Flags) && inv(x)
+//@   assigns e.Flags, e.err, d
+//@   delegates (*Context).RoundToIntegralExact(e.Ctx, d, x)
+//@   ensures ret == d
+//@ func (*ErrDecimal).Quantize
+//@   props C03
+//@   requires writable(e) && writable(d) && e.Ctx != nil && closed(e.Flags) && inv(v)
+//@   assigns e.Flags, e.err, d
+//@   delegates (*Context).Quantize(e.Ctx, d, v, exp)
+//@   ensures ret == d
+//@ func (*ErrDecimal).Reduce
+//@   props C03
+//@   requires writable(e) && writable(d) && e.Ctx != nil && closed(e.Flags) && inv(x)
+//@   assigns e.Flags, e.err, d
+//@   delegates (*Context).Reduce(e.Ctx, d, x)
+//@   ensures ret1 == d
